@@ -375,7 +375,7 @@ def run(ck):
     _g.prime_room(ck, P)
     from .. import taint as _t
     _t.api_int_arith(ck, P, roots)
-    ck.floor("SIB/ref-conditions", condparity.check(ck, P, "SIB/ref-conditions", only={"deflate.c:lm_init", "deflate.c:deflateReset", "deflate.c:deflateResetKeep", "deflate_fast.c:deflate_fast", "deflate_slow.c:deflate_slow", "deflate_medium.c:deflate_medium", "deflate_medium.c:emit_match", "deflate_medium.c:insert_match", "deflate_medium.c:fizzle_matches", "deflate_quick.c:deflate_quick", "deflate_rle.c:deflate_rle", "deflate_huff.c:deflate_huff", "match_tpl.h:LONGEST_MATCH", "deflate.c:flush_pending", "deflate.c:read_buf", "deflate.c:deflate", "deflate_stored.c:deflate_stored", "deflate.c:fill_window"}), 50)
+    ck.floor("SIB/ref-conditions", condparity.check(ck, P, "SIB/ref-conditions", only={"deflate.c:deflateSetDictionary", "deflate.c:lm_init", "deflate.c:deflateReset", "deflate.c:deflateResetKeep", "deflate_fast.c:deflate_fast", "deflate_slow.c:deflate_slow", "deflate_medium.c:deflate_medium", "deflate_medium.c:emit_match", "deflate_medium.c:insert_match", "deflate_medium.c:fizzle_matches", "deflate_quick.c:deflate_quick", "deflate_rle.c:deflate_rle", "deflate_huff.c:deflate_huff", "match_tpl.h:LONGEST_MATCH", "deflate.c:flush_pending", "deflate.c:read_buf", "deflate.c:deflate", "deflate_stored.c:deflate_stored", "deflate.c:fill_window"}), 50)
     guards(ck, P)
     signed_offsets(ck, P)
     slide_order(ck, P)
